@@ -385,9 +385,19 @@ def sm_chart_reader(ctx: Ctx) -> None:
             return out + (OneOfText(f"{sn}.extradata = list({vparam}[{n}:])", f"{sn}.extradata = {vparam}[{n}:]"),)
         return out
 
+    eqv = {f"len({vparam}) >= {n + 1}": (GT, True), f"len({vparam}) <= {n - 1}": (LT, True), f"{vparam}[{n}:]": (GT, True)}
+    # a local that holds len(<components>) (the sequence is a parameter nobody changes here): tests on it are tests on the length; once the
+    # length guard has passed, "!= 6" is "> 6"
+    from ..decide import key as _ck
+    for s_ in sums:
+        for e in s_.effects:
+            if e.kind == "bind" and isinstance(e.target, ast.Name) and e.value is not None and ast.unparse(e.value) == f"len({vparam})":
+                c = e.target.id
+                eqv.update({f"{c} > {n}": (GT, True), f"{c} < {n}": (LT, True), f"{c} >= {n + 1}": (GT, True), f"{c} == {n}": (GT, False), f"{c} != {n}": (GT, True),
+                            f"len({vparam}) == {n}": (GT, False), f"len({vparam}) != {n}": (GT, True)})
     tjudge(ctx, "R-WS", fi, "fewer than six components -> ValueError before anything is stored; each of the six fields is stored strip()ped under its table key; "
            "components after the six become extradata; nothing else is stored or changed afterwards", decs, [LT, GT], spec,
-           equiv={f"len({vparam}) >= {n + 1}": (GT, True), f"len({vparam}) <= {n - 1}": (LT, True), f"{vparam}[{n}:]": (GT, True)},
+           equiv=eqv,
            why="the writer's line-break/indent decoration must not become part of a field, and a loaded field must not be altered beyond that (a second load would alter it again)")
     # _parse: NOTES key check and components[1:]
     fp = p.func(PARSERS["sm_chart"])
